@@ -400,7 +400,7 @@ def run(chk):
     cases = []      # (coq_term, suite, kind, payload)
 
     # ---------------- suite seqset: direct calls
-    nbox = 12 if quick else 60
+    nbox = 24 if quick else 80
     per = 90 if quick else 160
     boxes = []
     for b in range(nbox):
@@ -447,13 +447,13 @@ def run(chk):
     # ---------------- suite numbering: sessions
     scs = corpus_scenarios(rng)
     ncorpus = len(scs)
-    nh = 10 if quick else 120
+    nh = 36 if quick else 240
     for j in range(nh):
         scs.append(build_history_scenario(rng, "hist%d" % j, 14 if quick else 22))
-    for j in range(2 if quick else 12):
+    for j in range(4 if quick else 16):
         k = rng.randint(2, 6)
         scs.append(build_noop_scenario(rng, "noop%d" % j, k, sorted(rng.sample(range(1, k + 1), rng.randint(1, 2)), reverse=True)))
-    for j in range(2 if quick else 10):
+    for j in range(4 if quick else 16):
         k = rng.randint(2, 6)
         scs.append(build_junk_scenario(rng, "junk%d" % j, k, gen_ast(rng, k)))
     results = C.run_many([[{kk: v for kk, v in o.items() if not kk.startswith("_")} for o in sc.ops] for sc in scs], workers=12)
@@ -506,6 +506,7 @@ def run(chk):
     nd = 0
     seen_kinds = {}
     unclassified_spec_fail = set()
+    reported = {}
     mismatches = []
     for (term, suite, kind, payload), code in zip(cases, codes):
         model_ok, spec_ok, print_ok, cls = bool(code & 1), bool(code & 2), bool(code & 4), CLASSES[code >> 3]
@@ -523,6 +524,14 @@ def run(chk):
                 what += ": NOOP notices after another session expunged %r of %d" % (payload["meta"]["dels"], payload["meta"]["k"])
             elif kind in ("expunge", "close"):
                 what += ": %s on %r" % (kind.upper(), payload.get("state"))
+            elif kind in ("seq", "uid"):
+                what += ": %s parser returned %r for set %r on a mailbox with UIDs %r" % (
+                    "ParseSequenceSetWithDB" if kind == "seq" else "ParseUIDSequenceSetWithDB", payload["impl"], payload["set"], payload["uids"])
+            if cls is None or cls not in chk.findings:
+                reported[kind] = reported.get(kind, 0) + 1
+                if reported[kind] > 4:
+                    unclassified_spec_fail.add(kind)
+                    continue
             chk.violation(what, pl, cls=cls)
             if cls is None or cls not in chk.findings:
                 unclassified_spec_fail.add(kind)
